@@ -54,6 +54,55 @@ impl Metric {
     }
 }
 
+/// local rayon pools: every k-means history runs under 4 worker threads (so that `par_for_each` and any
+/// future parallel reduction really split the batch) and once more under a single one
+fn pool(n: usize) -> &'static rayon::ThreadPool {
+    static P1: std::sync::OnceLock<rayon::ThreadPool> = std::sync::OnceLock::new();
+    static P4: std::sync::OnceLock<rayon::ThreadPool> = std::sync::OnceLock::new();
+    let cell = if n == 1 { &P1 } else { &P4 };
+    cell.get_or_init(|| rayon::ThreadPoolBuilder::new().num_threads(n).build().expect("rayon pool"))
+}
+
+/// (centroids, cluster_count, converged, inertia) after every batch
+type Trace = Vec<(Rows, Vec<f64>, bool, f64)>;
+fn same_trace(a: &Trace, b: &Trace) -> bool {
+    a.len() == b.len() && a.iter().zip(b).all(|(a, b)| a.0.iter().flatten().map(|v| v.to_bits()).eq(b.0.iter().flatten().map(|v| v.to_bits())) && a.1 == b.1 && a.2 == b.2 && a.3.to_bits() == b.3.to_bits())
+}
+
+/// the whole history through `fit_with`, every batch handed over as a view of the given memory layout
+/// (`mk_store` / `mk_view`: C, Fortran, strided, reversed rows, reversed columns, both axes inverted)
+#[allow(clippy::too_many_arguments)]
+fn km_trace<D: Distance<f64> + std::fmt::Debug + 'static>(dist_fn: &D, init: &KMeansInit<f64>, k: usize, n_runs: usize, batches: &[Rows], p: usize, tol: f64, seed: u64, layout: usize) -> (Trace, KMeans<f64, D>) {
+    let params = KMeans::params_with(k, Xoshiro256Plus::seed_from_u64(seed), dist_fn.clone()).tolerance(tol).n_runs(n_runs).init_method(init.clone()).check().expect("valid k-means parameters");
+    let mut model: Option<KMeans<f64, D>> = None;
+    let mut out = vec![];
+    for b in batches {
+        let store = mk_store::<f64>(b, p, layout);
+        let ds = DatasetBase::from(mk_view(&store, p, layout));
+        let (mo, conv) = match params.fit_with(model.take(), &ds) {
+            Ok(mo) => (mo, true),
+            Err(IncrKMeansError::NotConverged(mo)) => (mo, false),
+            Err(e) => panic!("unexpected error {}", e),
+        };
+        out.push((to_rows(mo.centroids()), mo.cluster_count().to_vec(), conv, mo.inertia()));
+        model = Some(mo);
+    }
+    (out, model.unwrap())
+}
+/// the history under 4 threads with the given layout, and under 1 thread with a plain owned C-order matrix:
+/// the model is a function of the history (and the seed) alone, so the two traces must agree bit for bit
+#[allow(clippy::too_many_arguments)]
+fn km_trace_checked<D: Distance<f64> + std::fmt::Debug + 'static>(ctx: &mut Ctx, class: &str, dist_fn: &D, init: &KMeansInit<f64>, k: usize, n_runs: usize, batches: &[Rows], p: usize, tol: f64, seed: u64, layout: usize) -> (Trace, KMeans<f64, D>) {
+    let (got, model) = pool(4).install(|| km_trace(dist_fn, init, k, n_runs, batches, p, tol, seed, layout));
+    let (plain, _) = pool(1).install(|| km_trace(dist_fn, init, k, n_runs, batches, p, tol, seed, 0));
+    tag(&format!("ok:km:layout_fitted:{}", LAYOUTS[layout]));
+    ctx.require(same_trace(&got, &plain), "function_of_history", &format!("{}:layout={}:threads=4", class, LAYOUTS[layout]), || {
+        let at = got.iter().zip(&plain).position(|(a, b)| !same_trace(&vec![a.clone()], &vec![b.clone()])).unwrap_or(0);
+        format!("the history fed as {} views under 4 rayon threads and as owned C-order matrices under 1 thread differ after batch {}: {:?} / {:?} vs {:?} / {:?}", LAYOUTS[layout], at, got[at].0, got[at].1, plain[at].0, plain[at].1)
+    });
+    (got, model)
+}
+
 fn to_rows(a: &Array2<f64>) -> Rows {
     a.rows().into_iter().map(|r| r.to_vec()).collect()
 }
@@ -112,9 +161,6 @@ fn km_batch_oracle(ctx: &mut Ctx, class: &str, bi: usize, m: Metric, rp: &mut Re
         inert += d;
     }
     let combos = choices.iter().fold(1usize, |a, c| a.saturating_mul(c.len()));
-    if combos > 256 {
-        tie = true;
-    }
     // the recurrence for one admissible assignment
     let apply = |assign: &[usize]| -> (Rows, Vec<usize>, Rows) {
         let (mut want, mut cnt, mut sums) = (rp.cs.clone(), rp.cnt.clone(), rp.sums.clone());
@@ -129,7 +175,21 @@ fn km_batch_oracle(ctx: &mut Ctx, class: &str, bi: usize, m: Metric, rp: &mut Re
     };
     let first: Vec<usize> = choices.iter().map(|c| c[0]).collect();
     let mut picked = apply(&first);
-    if !tie && combos > 1 {
+    let explains = |cand: &(Rows, Vec<usize>, Rows)| got_cnt.iter().zip(&cand.1).all(|(a, b)| *a == *b as f64) && (0..k).all(|c| near_v(&got_cs[c], &cand.0[c], t));
+    if !tie && combos > 256 {
+        // too many combinations of tied points to enumerate: the two natural tie rules (first minimum — the one
+        // tried above —, last minimum) are tried; a batch that neither explains is not judged
+        let last: Vec<usize> = choices.iter().map(|c| *c.last().unwrap()).collect();
+        let cand = apply(&last);
+        if explains(&picked) {
+            tag("ok:km:many_ties_judged");
+        } else if explains(&cand) {
+            picked = cand;
+            tag("ok:km:many_ties_judged");
+        } else {
+            tie = true;
+        }
+    } else if !tie && combos > 1 {
         let mut idx = vec![0usize; choices.len()];
         'search: loop {
             let assign: Vec<usize> = idx.iter().zip(&choices).map(|(i, c)| c[*i]).collect();
@@ -191,9 +251,10 @@ fn km_batch_oracle(ctx: &mut Ctx, class: &str, bi: usize, m: Metric, rp: &mut Re
 }
 
 /// `predict` / `transform` of the model after the history: nearest of the *current* centroids
-fn km_predict_oracle<D: Distance<f64>>(ctx: &mut Ctx, class: &str, m: Metric, model: &KMeans<f64, D>, xs: &Rows, p: usize) {
+fn km_predict_oracle<D: Distance<f64>>(ctx: &mut Ctx, class: &str, m: Metric, model: &KMeans<f64, D>, xs: &Rows, p: usize, layout: usize) {
     let cs = to_rows(model.centroids());
-    let a = arr2(xs, p);
+    let store = mk_store::<f64>(xs, p, layout);
+    let a = mk_view(&store, p, layout);
     let pred = model.predict(&a);
     let tr = model.transform(&a);
     for (i, x) in xs.iter().enumerate() {
@@ -208,40 +269,30 @@ fn km_predict_oracle<D: Distance<f64>>(ctx: &mut Ctx, class: &str, m: Metric, mo
     }
 }
 
-fn km_history<D: Distance<f64> + std::fmt::Debug + 'static>(ctx: &mut Ctx, dist_fn: D, m: Metric, c0: &Rows, batches: &[Rows], tol: f64, seed: u64) -> String {
+fn km_history<D: Distance<f64> + std::fmt::Debug + 'static>(ctx: &mut Ctx, dist_fn: D, m: Metric, c0: &Rows, batches: &[Rows], tol: f64, seed: u64, layout: usize) -> String {
     let p = c0[0].len();
     let k = c0.len();
-    let params = KMeans::params_with(k, Xoshiro256Plus::seed_from_u64(seed), dist_fn).tolerance(tol).init_method(KMeansInit::Precomputed(arr2(c0, p))).check().expect("valid k-means parameters");
-    let mut model: Option<KMeans<f64, D>> = None;
+    let (got, mo) = km_trace_checked(ctx, &format!("km:{}", m.name()), &dist_fn, &KMeansInit::Precomputed(arr2(c0, p)), k, 10, batches, p, tol, seed, layout);
     let mut parts = vec![];
     let mut rp = Replay { cs: c0.clone(), cnt: vec![0; k], sums: vec![vec![0.0; p]; k], c0: c0.clone(), tainted: false };
     for (bi, b) in batches.iter().enumerate() {
-        let ds = DatasetBase::from(arr2(b, p));
-        let (mo, conv) = match params.fit_with(model.take(), &ds) {
-            Ok(mo) => (mo, true),
-            Err(IncrKMeansError::NotConverged(mo)) => (mo, false),
-            Err(e) => panic!("unexpected error {}", e),
-        };
-        let got_cs = to_rows(mo.centroids());
-        let got_cnt: Vec<f64> = mo.cluster_count().to_vec();
+        let (got_cs, got_cnt, conv, inertia) = &got[bi];
         let class = format!("km:{}:batch={}", m.name(), if bi == 0 { "first" } else { "later" });
-        km_batch_oracle(ctx, &class, bi, m, &mut rp, b, tol, &got_cs, &got_cnt, conv, mo.inertia(), 1e-12);
-        parts.push(format!("cs={}/cnt={}/conv={}/in={}", list2(got_cs.iter().map(|x| x.iter()), |x| hex64c(*x)), list(got_cnt.iter(), |x| hex64c(*x)), conv as u8, tf(mo.inertia())));
-        model = Some(mo);
+        km_batch_oracle(ctx, &class, bi, m, &mut rp, b, tol, got_cs, got_cnt, *conv, *inertia, 1e-12);
+        parts.push(format!("cs={}/cnt={}/conv={}/in={}", list2(got_cs.iter().map(|x| x.iter()), |x| hex64c(*x)), list(got_cnt.iter(), |x| hex64c(*x)), *conv as u8, tf(*inertia)));
     }
-    let mo = model.unwrap();
-    km_predict_oracle(ctx, &format!("km:{}", m.name()), m, &mo, batches.last().unwrap(), p);
-    km_predict_oracle(ctx, &format!("km:{}", m.name()), m, &mo, c0, p);
+    km_predict_oracle(ctx, &format!("km:{}", m.name()), m, &mo, batches.last().unwrap(), p, layout);
+    km_predict_oracle(ctx, &format!("km:{}", m.name()), m, &mo, c0, p, layout);
     format!("ok {}", parts.join(" "))
 }
 
-fn op_km(em: &mut Em, m: Metric, c0: &Rows, batches: &[Rows], tol: f64, seed: u64) {
+fn op_km(em: &mut Em, m: Metric, c0: &Rows, batches: &[Rows], tol: f64, seed: u64, layout: usize) {
     let op = format!("km tol={} m={} c0={} x={}", hex64(tol), m.name(), list2(c0.iter().map(|x| x.iter()), |x| hex64(*x)), list3(batches.iter().map(|r| r.iter().map(|x| x.iter())), |x| hex64(*x)));
     case_t(em, op, "km", |ctx| match m {
-        Metric::L2 => km_history(ctx, L2Dist, m, c0, batches, tol, seed),
-        Metric::L1 => km_history(ctx, L1Dist, m, c0, batches, tol, seed),
-        Metric::LInf => km_history(ctx, LInfDist, m, c0, batches, tol, seed),
-        Metric::Lp(pw) => km_history(ctx, LpDist(pw), m, c0, batches, tol, seed),
+        Metric::L2 => km_history(ctx, L2Dist, m, c0, batches, tol, seed, layout),
+        Metric::L1 => km_history(ctx, L1Dist, m, c0, batches, tol, seed, layout),
+        Metric::LInf => km_history(ctx, LInfDist, m, c0, batches, tol, seed, layout),
+        Metric::Lp(pw) => km_history(ctx, LpDist(pw), m, c0, batches, tol, seed, layout),
     });
 }
 
@@ -273,30 +324,48 @@ fn op_km_lp(em: &mut Em, pw: f64, c0: &Rows, batches: &[Rows], tol: f64, seed: u
     });
 }
 
-/// the same history in f32 (lattice inputs are exactly representable); oracle in f64 with the f32 error
+/// the same history in f32 (lattice inputs are exactly representable), any of the three metrics, any memory
+/// layout, 4 rayon threads; oracle in f64 with the f32 error
 /// bound: one centroid coordinate takes 3 roundings per absorbed point (6e-8 relative each): <= 12 points per
 /// batch give 2.2e-6 relative per batch (recurrence judged at 2e-5), <= 100 points ever absorbed give 1.8e-5
 /// (running mean judged at 2e-4); assignments with a relative distance gap below 2e-5 are not judged
-fn op_km_f32(em: &mut Em, c0: &Rows, batches: &[Rows], tol: f64, seed: u64) {
-    let op = format!("#km_f32 tol={} c0={} x={}", hex64(tol), list2(c0.iter().map(|x| x.iter()), |x| hex64(*x)), list3(batches.iter().map(|r| r.iter().map(|x| x.iter())), |x| hex64(*x)));
-    case_t(em, op, "km_f32", |ctx| {
-        let p = c0[0].len();
-        let k = c0.len();
-        let a32 = |r: &Rows| Array2::<f32>::from_shape_fn((r.len(), p), |(i, j)| r[i][j] as f32);
-        let params = KMeans::<f32, L2Dist>::params_with_rng(k, Xoshiro256Plus::seed_from_u64(seed)).tolerance(tol as f32).init_method(KMeansInit::Precomputed(a32(c0))).check().expect("valid k-means parameters");
-        let mut model: Option<KMeans<f32, L2Dist>> = None;
-        let mut rp = Replay { cs: c0.clone(), cnt: vec![0; k], sums: vec![vec![0.0; p]; k], c0: c0.clone(), tainted: false };
-        for (bi, b) in batches.iter().enumerate() {
-            let ds = DatasetBase::from(a32(b));
+fn km_f32_history<D: Distance<f32> + std::fmt::Debug + 'static>(ctx: &mut Ctx, dist_fn: D, m: Metric, c0: &Rows, batches: &[Rows], tol: f64, seed: u64, layout: usize) {
+    let p = c0[0].len();
+    let k = c0.len();
+    let class = format!("km_f32:{}", m.name());
+    let run = |layout: usize| -> Trace {
+        let params = KMeans::params_with(k, Xoshiro256Plus::seed_from_u64(seed), dist_fn.clone()).tolerance(tol as f32).init_method(KMeansInit::Precomputed(mk_store::<f32>(c0, p, 0))).check().expect("valid k-means parameters");
+        let mut model: Option<KMeans<f32, D>> = None;
+        let mut out: Trace = vec![];
+        for b in batches {
+            let store = mk_store::<f32>(b, p, layout);
+            let ds = DatasetBase::from(mk_view(&store, p, layout));
             let (mo, conv) = match params.fit_with(model.take(), &ds) {
                 Ok(mo) => (mo, true),
                 Err(IncrKMeansError::NotConverged(mo)) => (mo, false),
                 Err(e) => panic!("unexpected error {}", e),
             };
-            let got_cs: Rows = mo.centroids().rows().into_iter().map(|r| r.iter().map(|v| *v as f64).collect()).collect();
-            let got_cnt: Vec<f64> = mo.cluster_count().iter().map(|v| *v as f64).collect();
-            km_batch_oracle(ctx, "km_f32", bi, Metric::L2, &mut rp, b, tol as f32 as f64, &got_cs, &got_cnt, conv, mo.inertia() as f64, 2e-5);
+            out.push((mo.centroids().rows().into_iter().map(|r| r.iter().map(|v| *v as f64).collect()).collect(), mo.cluster_count().iter().map(|v| *v as f64).collect(), conv, mo.inertia() as f64));
             model = Some(mo);
+        }
+        out
+    };
+    let got = pool(4).install(|| run(layout));
+    let plain = pool(1).install(|| run(0));
+    tag(&format!("ok:km_f32:fitted:{}:{}", m.name(), LAYOUTS[layout]));
+    ctx.require(same_trace(&got, &plain), "function_of_history", &format!("{}:layout={}:threads=4", class, LAYOUTS[layout]), || format!("the f32 history fed as {} views under 4 threads differs from the owned one under 1 thread: {:?} vs {:?}", LAYOUTS[layout], got.last().map(|x| &x.0), plain.last().map(|x| &x.0)));
+    let mut rp = Replay { cs: c0.clone(), cnt: vec![0; k], sums: vec![vec![0.0; p]; k], c0: c0.clone(), tainted: false };
+    for (bi, b) in batches.iter().enumerate() {
+        km_batch_oracle(ctx, &class, bi, m, &mut rp, b, tol as f32 as f64, &got[bi].0, &got[bi].1, got[bi].2, got[bi].3, 2e-5);
+    }
+}
+fn op_km_f32(em: &mut Em, m: Metric, c0: &Rows, batches: &[Rows], tol: f64, seed: u64, layout: usize) {
+    let op = format!("#km_f32 m={} layout={} tol={} c0={} x={}", m.name(), LAYOUTS[layout], hex64(tol), list2(c0.iter().map(|x| x.iter()), |x| hex64(*x)), list3(batches.iter().map(|r| r.iter().map(|x| x.iter())), |x| hex64(*x)));
+    case_t(em, op, "km_f32", |ctx| {
+        match m {
+            Metric::L1 => km_f32_history(ctx, L1Dist, m, c0, batches, tol, seed, layout),
+            Metric::LInf => km_f32_history(ctx, LInfDist, m, c0, batches, tol, seed, layout),
+            _ => km_f32_history(ctx, L2Dist, Metric::L2, c0, batches, tol, seed, layout),
         }
         "-".to_string()
     });
@@ -331,37 +400,24 @@ impl Init {
 /// same models (function of history + seed), (2) every candidate consists of rows of the first batch,
 /// (3) the model after the first batch is the documented recurrence applied to a candidate of LOWEST
 /// inertia, (4) later batches continue the recurrence; inertia, counts and `converged` as for `km`.
-fn km_init_history<D: Distance<f64> + std::fmt::Debug + 'static>(ctx: &mut Ctx, dist_fn: D, m: Metric, init: Init, k: usize, n_runs: usize, batches: &[Rows], tol: f64, seed: u64) {
+/// the candidates of the `n_runs` initialisation runs of `fit_with(None, first batch)`, in order, drawn
+/// through the hook `init_run` (= `KMeansInit::run`) from a clone of the parameters' generator
+fn km_init_cands<D: Distance<f64>>(dist_fn: &D, init: Init, k: usize, n_runs: usize, first: &Rows, seed: u64) -> Vec<Rows> {
+    let mut rng = Xoshiro256Plus::seed_from_u64(seed);
+    let p = first[0].len();
+    let first = arr2(first, p);
+    let km_init = init.mk();
+    (0..n_runs).map(|_| to_rows(&hooks::init_run(&km_init, dist_fn, k, first.view(), &mut rng))).collect()
+}
+
+#[allow(clippy::too_many_arguments)]
+fn km_init_history<D: Distance<f64> + std::fmt::Debug + 'static>(ctx: &mut Ctx, dist_fn: D, m: Metric, init: Init, k: usize, n_runs: usize, batches: &[Rows], tol: f64, seed: u64, layout: usize) {
     let p = batches[0][0].len();
     let class = format!("km_init:{}:{}", init.name(), m.name());
-    let mk_params = || KMeans::params_with(k, Xoshiro256Plus::seed_from_u64(seed), dist_fn.clone()).tolerance(tol).n_runs(n_runs).init_method(init.mk()).check().expect("valid k-means parameters");
-    let run_all = || -> Vec<(Rows, Vec<f64>, bool, f64)> {
-        let params = mk_params();
-        let mut model: Option<KMeans<f64, D>> = None;
-        let mut out = vec![];
-        for b in batches {
-            let ds = DatasetBase::from(arr2(b, p));
-            let (mo, conv) = match params.fit_with(model.take(), &ds) {
-                Ok(mo) => (mo, true),
-                Err(IncrKMeansError::NotConverged(mo)) => (mo, false),
-                Err(e) => panic!("unexpected error {}", e),
-            };
-            out.push((to_rows(mo.centroids()), mo.cluster_count().to_vec(), conv, mo.inertia()));
-            model = Some(mo);
-        }
-        out
-    };
-    let got = run_all();
-    let again = run_all();
-    let same = got.len() == again.len() && got.iter().zip(&again).all(|(a, b)| a.0 == b.0 && a.1 == b.1 && a.2 == b.2 && a.3.to_bits() == b.3.to_bits());
-    ctx.require(same, "function_of_history", &class, || format!("two runs of the same history with the same seeded parameters differ: {:?} vs {:?}", got.last().map(|x| &x.0), again.last().map(|x| &x.0)));
-    // candidates of the n_runs initialisations, in order, from a clone of the parameters' generator
-    let mut rng = Xoshiro256Plus::seed_from_u64(seed);
-    let first = arr2(&batches[0], p);
-    let km_init = init.mk();
+    // 4 threads + the given layout against 1 thread + owned matrices: function of history + seed alone
+    let (got, _) = km_trace_checked(ctx, &class, &dist_fn, &init.mk(), k, n_runs, batches, p, tol, seed, layout);
     let mut cands: Vec<(Rows, f64)> = vec![];
-    for _ in 0..n_runs {
-        let c = to_rows(&hooks::init_run(&km_init, &dist_fn, k, first.view(), &mut rng));
+    for c in km_init_cands(&dist_fn, init, k, n_runs, &batches[0], seed) {
         let inertia: f64 = batches[0].iter().map(|x| nearest(m, &c, x).1).sum();
         for row in &c {
             ctx.require(batches[0].iter().any(|x| x == row), "init_from_first_batch", &class, || format!("initial centroid {:?} is not a row of the first batch", row));
@@ -382,10 +438,14 @@ fn km_init_history<D: Distance<f64> + std::fmt::Debug + 'static>(ctx: &mut Ctx, 
         Some(!scratch.fails.iter().any(|f| f.0 == "cumulative_counts" || f.0 == "recurrence"))
     };
     let ex: Vec<Option<bool>> = cands.iter().map(|c| explain(&c.0)).collect();
-    if ex.iter().any(|e| e.is_none()) {
+    let explaining: Vec<usize> = (0..cands.len()).filter(|i| ex[*i] == Some(true)).collect();
+    // candidates whose first-batch assignment has an inexact near-tie are undecidable; the case is given up only
+    // when the verdict hangs on one of them: no decidable candidate explains the model, or the only lowest-inertia
+    // candidates are undecidable ones
+    let undecided: Vec<usize> = (0..cands.len()).filter(|i| ex[*i].is_none()).collect();
+    if (explaining.is_empty() && !undecided.is_empty()) || (!explaining.iter().any(|i| cands[*i].1 <= min_inertia * (1.0 + 1e-12)) && undecided.iter().any(|i| cands[*i].1 <= min_inertia * (1.0 + 1e-12))) {
         return;
     }
-    let explaining: Vec<usize> = (0..cands.len()).filter(|i| ex[*i] == Some(true)).collect();
     ctx.require(!explaining.is_empty(), "function_of_history", &class, || format!("the model after the first batch {:?} is not the recurrence applied to any of the {} initialisations drawn from the parameters' generator", got[0].0, n_runs));
     if !explaining.is_empty() {
         tag(&format!("ok:km_init:{}:selection_judged", init.name()));
@@ -416,17 +476,37 @@ fn km_init_history<D: Distance<f64> + std::fmt::Debug + 'static>(ctx: &mut Ctx, 
     }
 }
 
-fn op_km_init(em: &mut Em, m: Metric, init: Init, k: usize, n_runs: usize, batches: &[Rows], tol: f64, seed: u64) {
-    let op = format!("#km_init m={} init={} k={} n_runs={} tol={} seed={} x={}", m.name(), init.name(), k, n_runs, hex64(tol), seed, list3(batches.iter().map(|r| r.iter().map(|x| x.iter())), |x| hex64(*x)));
+#[allow(clippy::too_many_arguments)]
+fn op_km_init(em: &mut Em, m: Metric, init: Init, k: usize, n_runs: usize, batches: &[Rows], tol: f64, seed: u64, layout: usize) {
+    let op = format!("#km_init m={} init={} layout={} k={} n_runs={} tol={} seed={} x={}", m.name(), init.name(), LAYOUTS[layout], k, n_runs, hex64(tol), seed, list3(batches.iter().map(|r| r.iter().map(|x| x.iter())), |x| hex64(*x)));
     em.count(&format!("km_init:{}", init.name()));
     case_t(em, op, "km_init", |ctx| {
         match m {
-            Metric::L2 => km_init_history(ctx, L2Dist, m, init, k, n_runs, batches, tol, seed),
-            Metric::L1 => km_init_history(ctx, L1Dist, m, init, k, n_runs, batches, tol, seed),
-            Metric::LInf => km_init_history(ctx, LInfDist, m, init, k, n_runs, batches, tol, seed),
-            Metric::Lp(pw) => km_init_history(ctx, LpDist(pw), m, init, k, n_runs, batches, tol, seed),
+            Metric::L2 => km_init_history(ctx, L2Dist, m, init, k, n_runs, batches, tol, seed, layout),
+            Metric::L1 => km_init_history(ctx, L1Dist, m, init, k, n_runs, batches, tol, seed, layout),
+            Metric::LInf => km_init_history(ctx, LInfDist, m, init, k, n_runs, batches, tol, seed, layout),
+            Metric::Lp(pw) => km_init_history(ctx, LpDist(pw), m, init, k, n_runs, batches, tol, seed, layout),
         }
         "-".to_string()
+    });
+    // the same history as a MODEL op: the candidates travel in the request, the driver selects among them through
+    // `pickInit` (costs of the first batch, `min_by` tie rule) and continues the recurrence (`kmFitInitHistory`)
+    let cands = std::panic::catch_unwind(std::panic::AssertUnwindSafe(|| match m {
+        Metric::L2 => km_init_cands(&L2Dist, init, k, n_runs, &batches[0], seed),
+        Metric::L1 => km_init_cands(&L1Dist, init, k, n_runs, &batches[0], seed),
+        _ => km_init_cands(&LInfDist, init, k, n_runs, &batches[0], seed),
+    }));
+    let Ok(cands) = cands else { return };
+    let p = batches[0][0].len();
+    let op = format!("km_initfit m={} tol={} cands={} x={}", m.name(), hex64(tol), list3(cands.iter().map(|r| r.iter().map(|x| x.iter())), |x| hex64(*x)), list3(batches.iter().map(|r| r.iter().map(|x| x.iter())), |x| hex64(*x)));
+    case_t(em, op, "km_initfit", |_ctx| {
+        let got = pool(4).install(|| match m {
+            Metric::L2 => km_trace(&L2Dist, &init.mk(), k, n_runs, batches, p, tol, seed, layout).0,
+            Metric::L1 => km_trace(&L1Dist, &init.mk(), k, n_runs, batches, p, tol, seed, layout).0,
+            _ => km_trace(&LInfDist, &init.mk(), k, n_runs, batches, p, tol, seed, layout).0,
+        });
+        tag(&format!("ok:km_initfit:{}", init.name()));
+        format!("ok {}", got.iter().map(|(cs, cnt, conv, inertia)| format!("cs={}/cnt={}/conv={}/in={}", list2(cs.iter().map(|x| x.iter()), |x| hex64c(*x)), list(cnt.iter(), |x| hex64c(*x)), *conv as u8, tf(*inertia))).collect::<Vec<_>>().join(" "))
     });
 }
 
@@ -439,17 +519,22 @@ pub(super) fn run(em: &mut Em, rng: &mut Rng) {
         let kind = rng.below(3);
         let c0: Rows = (0..k).map(|_| (0..p).map(|_| lattice(rng, kind)).collect()).collect();
         let nb = 1 + rng.below(if thorough { 8 } else { 5 });
-        // batches of up to 12 rows: ndarray sums 8 and more contiguous distances with its unrolled kernel
-        let bmax = *rng.pick(&[6usize, 6, 12]);
+        // batches of up to 12 rows: ndarray sums 8 and more contiguous distances with its unrolled kernel; every
+        // eighth history has batches of up to 160 rows (rayon splits them over its 4 workers several times)
+        let bmax = if i % 8 == 5 { *rng.pick(&[48usize, 160]) } else { *rng.pick(&[6usize, 6, 12]) };
         let batches: Vec<Rows> = (0..nb).map(|_| (0..1 + rng.below(bmax)).map(|_| (0..p).map(|_| lattice(rng, kind)).collect()).collect()).collect();
         let tol = *rng.pick(&[0.5, 1.0, 2.0, 4.0, 1e-4, 100.0]);
         let m = *rng.pick(&[Metric::L2, Metric::L2, Metric::L1, Metric::LInf]);
         em.count(&format!("km:k={}", k));
         em.count(&format!("km:metric={}", m.name()));
         let seed = rng.next();
-        op_km(em, m, &c0, &batches, tol, seed);
-        if i % 4 == 0 {
-            op_km_f32(em, &c0, &batches, tol, seed);
+        // memory layout of the batches: rotates through owned / Fortran / strided / reversed rows / reversed
+        // columns / both axes inverted
+        let layout = i % LAYOUTS.len();
+        em.count(&format!("km:layout={}", LAYOUTS[layout]));
+        op_km(em, m, &c0, &batches, tol, seed, layout);
+        if i % 4 == 0 && bmax <= 12 {
+            op_km_f32(em, m, &c0, &batches, tol, seed, (i / 4) % LAYOUTS.len());
         }
         if i % 4 == 1 {
             op_km_lp(em, *rng.pick(&[1.5, 3.0]), &c0, &batches, tol, seed);
@@ -457,7 +542,7 @@ pub(super) fn run(em: &mut Em, rng: &mut Rng) {
     }
     // first-batch initialisation inside fit_with(None, ..)
     let nin = if thorough { 4000 } else { 600 };
-    for _ in 0..nin {
+    for i in 0..nin {
         let p = 1 + rng.below(3);
         let kind = rng.below(3);
         let nb = 1 + rng.below(4);
@@ -471,6 +556,6 @@ pub(super) fn run(em: &mut Em, rng: &mut Rng) {
         let m = *rng.pick(&[Metric::L2, Metric::L2, Metric::L1, Metric::LInf]);
         let init = *rng.pick(&[Init::Random, Init::PlusPlus, Init::Para]);
         let n_runs = *rng.pick(&[1usize, 2, 3, 5, 10]);
-        op_km_init(em, m, init, k, n_runs, &batches, tol, rng.next() % 100_000);
+        op_km_init(em, m, init, k, n_runs, &batches, tol, rng.next() % 100_000, i % LAYOUTS.len());
     }
 }
